@@ -1,7 +1,7 @@
 SPECIFICATION Spec
-CONSTANTS Regs = {"r1", "r2"}  NComp = 3  Patterns <- P3  Nums <- NumsMC  Caps <- AllCaps  MaxAbs = 200  Depth = 4
+CONSTANTS Regs = {"r1", "r2"}  NComp = 3  Patterns <- P3  Nums <- NumsMC  Caps <- AllCaps  Factor = 60  MaxAbs = 2000  Depth = 4
 INVARIANT TypeOK
-PROPERTIES ReadsAreReadOnly CompoundEqualsPure OperandsUnchanged ZeroIsZero
+PROPERTIES ReadBack ReadsAreReadOnly CompoundEqualsPure OperandsUnchanged ZeroIsZero
 CONSTRAINT Bound
 VIEW View
 CHECK_DEADLOCK FALSE
